@@ -1063,3 +1063,62 @@ def term_of(v):
     if isinstance(v, (bool, np.bool_)):
         return z3.BoolVal(bool(v))
     return lift(v)
+
+
+# --------------------------------------------------------------------------
+# SymStr: a str whose content is symbolic (bounded length, 8-bit characters); supports exactly
+# lower(), endswith(str | tuple), len(), isinstance(_, str)
+# --------------------------------------------------------------------------
+class SymStr(str):
+    MAXLEN = 12
+
+    def __new__(cls, name='s', chars=None, length=None):
+        o = super().__new__(cls, f'<symbolic:{name}>')
+        c = ctx()
+        if chars is None:
+            chars = [z3.Int(f'{name}_ch{k}') for k in range(cls.MAXLEN)]
+            length = z3.Int(f'{name}_len')
+            c.pc.append(z3.And(length >= 0, length <= cls.MAXLEN))
+            for ch in chars:
+                c.pc.append(z3.And(ch >= 0, ch <= 255))
+        o.chars, o.length, o.name = chars, length, name
+        return o
+
+    def lower(self):
+        low = [z3.If(z3.And(ch >= 65, ch <= 90), ch + 32, ch) for ch in self.chars]
+        return SymStr(self.name + '_lower', low, self.length)
+
+    def upper(self):
+        raise Inconclusive('SymStr.upper is not modelled')
+
+    def _ends(self, t):
+        if not isinstance(t, str) or isinstance(t, SymStr):
+            raise Inconclusive('SymStr.endswith needs concrete suffixes')
+        k = len(t)
+        if k > self.MAXLEN:
+            return z3.BoolVal(False)
+        alts = []
+        for n in range(k, self.MAXLEN + 1):
+            alts.append(z3.And(self.length == n, *[self.chars[n - k + i] == ord(t[i]) for i in range(k)]))
+        return z3.Or(*alts) if alts else z3.BoolVal(False)
+
+    def endswith(self, suffix, *a):
+        if a:
+            raise Inconclusive('SymStr.endswith with start/end')
+        if isinstance(suffix, tuple):
+            return SymBool(z3.Or(*[self._ends(t) for t in suffix]) if suffix else z3.BoolVal(False))
+        return SymBool(self._ends(suffix))
+
+    def __len__(self):
+        raise Inconclusive('len() of a SymStr')
+
+    def _unsupported(self, *a, **k):
+        raise Inconclusive('unsupported string operation on a symbolic path')
+
+    startswith = split = strip = replace = find = __getitem__ = __add__ = __contains__ = encode = format = _unsupported
+    __eq__ = _unsupported
+    __hash__ = str.__hash__
+
+    def concrete(self, model):
+        n = model.eval(self.length, model_completion=True).as_long()
+        return ''.join(chr(model.eval(ch, model_completion=True).as_long()) for ch in self.chars[:n])
